@@ -46,14 +46,15 @@ theorem writeModel_item (cfg : Cfg) (c : Coll) (rs : List Rec) (h : writeModel c
     (it : Item) (hit : it ∈ c.items) :
     ∃ ri, itemToFeatures cfg c.seq it = .ok ri ∧ ∀ r ∈ ri, r ∈ rs := by
   unfold writeModel at h
-  simp only [bind, Except.bind] at h
-  cases hm : mapMR (itemToFeatures cfg c.seq) (childrenOf c) with
-  | error e => simp [hm] at h
-  | ok rss =>
-    simp only [hm, pure, Except.pure, Except.ok.injEq] at h
-    subst h
-    obtain ⟨ri, hri, hok⟩ := mapMR_mem _ _ _ hm it ((mem_childrenOf c it).mpr hit)
-    exact ⟨ri, hok, fun r hr => List.mem_flatten.mpr ⟨ri, hri, hr⟩⟩
+  split at h
+  · exact absurd h (by simp)
+  · split at h
+    · exact absurd h (by simp)
+    · next rss hm =>
+      simp only [Except.ok.injEq] at h
+      subst h
+      obtain ⟨ri, hri, hok⟩ := mapMR_mem _ _ _ hm it ((mem_childrenOf c it).mpr hit)
+      exact ⟨ri, hok, fun r hr => List.mem_flatten.mpr ⟨ri, hri, hr⟩⟩
 
 /-! ### majority strand of a single-strand family -/
 
